@@ -15,7 +15,7 @@ From Coq Require Import Reals ZArith.
 From Coquelicot Require Import Complex.
 From Flocq Require Import Core.Raux.
 From Verif Require Import lib.C07_Base C07.Model C07.ProofsBasic C07.ProofsGabor C07.ProofsGammatone
-  C07.ProofsTri C07.ProofsLoops C07.ProofsExtra gen.C07Filters C07.Tie C07.ProofsExamples.
+  C07.ProofsTri C07.ProofsLoops C07.ProofsExtra C07.Refuted gen.C07Filters C07.Tie C07.ProofsExamples.
 Open Scope R_scope.
 
 (** * "the impulse response is real exactly when is_real" (dtype level) *)
@@ -153,6 +153,13 @@ Theorem gabor_fr_outside_supports_hz : forall eps l2 std xi W idx,
 Proof. exact gabor_fr_outside_supports_l. Qed.
 Print Assumptions gabor_fr_outside_supports_hz.
 
+(* the side condition [std >= 1/4] of the previous theorem holds for every bank: its edges lie
+   within [0, rate / 2] *)
+Theorem gabor_std_ge_quarter : forall erb rate le re, 0 < rate -> le < re -> re - le <= rate / 2 ->
+  1 / 4 <= gabor_std erb rate le re.
+Proof. exact gabor_std_ge_quarter_l. Qed.
+Print Assumptions gabor_std_ge_quarter.
+
 Theorem gammatone_freq_tail : forall eps n log_c log_alpha xi omega, 0 < eps -> (1 <= n)%nat ->
   exp (2 * log_alpha) < exp (gt_supp_a eps n log_c) ->
   gt_diff_ang eps n log_c log_alpha <= Rabs (omega - xi) ->
@@ -181,6 +188,18 @@ Theorem bin_frequency : forall rate (W idx : Z), 0 < rate -> (0 < W)%Z ->
   a2h (IZR idx * 2 * PI / IZR W) rate = IZR idx * rate / IZR W.
 Proof. exact bin_frequency_l. Qed.
 Print Assumptions bin_frequency.
+
+(** * regression of the fixed finding: the pre-fix support tuple is refuted *)
+Theorem gammatone_prefix_support_refuted :
+  exists (c alpha : R) (n : nat) (right : R) (t : Z),
+    let eps := 1 / 2000 in
+    let offset := gt_offset true n alpha in
+    0 < c /\ 0 < alpha /\ (2 <= n)%nat /\
+    (INR n - 1) / alpha <= right - offset /\ gt_habs c alpha n offset right <= eps /\
+    (snd (gt_supports_prefix offset right) < t)%Z /\
+    13 * eps < gt_habs c alpha n offset (IZR t).
+Proof. exact gammatone_prefix_support_refuted_l. Qed.
+Print Assumptions gammatone_prefix_support_refuted.
 
 (** * the accumulation loops leave the closed forms used above *)
 Theorem gabor_ir_loop_closed_form : forall l2 std xi W j, (0 <= j < W)%Z ->
